@@ -659,14 +659,14 @@ fn main() {
         |_| vec![],
         |a| {
             let t = a.thorough();
-            let (cn, ce) = if t { (3, 5) } else { (3, 4) };
+            let (cn, ce) = if t { (4, 6) } else { (3, 5) };
             let mut v: Vec<Box<dyn Part>> = vec![
                 e1::part(CM::<Directed, u32> { name: "Directed, u32", max_nodes: cn, max_edges: ce, _p: Default::default() }),
                 e1::part(CM::<Undirected, u32> { name: "Undirected, u32", max_nodes: cn, max_edges: ce - 1, _p: Default::default() }),
                 e1::part(CM::<Directed, u8> { name: "Directed, u8", max_nodes: 2, max_edges: 3, _p: Default::default() }),
                 e1::part(CM::<Undirected, u16> { name: "Undirected, u16", max_nodes: 2, max_edges: 3, _p: Default::default() }),
                 e1::part(CM::<Undirected, usize> { name: "Undirected, usize", max_nodes: 2, max_edges: 3, _p: Default::default() }),
-                e1::part(LM::<u32> { name: "u32", max_nodes: 3, max_edges: if t { 4 } else { 3 }, _p: Default::default() }),
+                e1::part(LM::<u32> { name: "u32", max_nodes: if t { 4 } else { 3 }, max_edges: if t { 5 } else { 4 }, _p: Default::default() }),
                 e1::part(LM::<u8> { name: "u8", max_nodes: 2, max_edges: 3, _p: Default::default() }),
                 e1::part(LM::<usize> { name: "usize", max_nodes: 2, max_edges: 2, _p: Default::default() }),
             ];
